@@ -111,6 +111,85 @@ class _RenameLocals(ast.NodeTransformer):
         return fn
 
 
+def _names(n):
+    out = set()
+    for x in ast.walk(n):
+        if isinstance(x, ast.Name):
+            out.add(x.id)
+        elif isinstance(x, ast.Attribute):
+            out.add(ast.unparse(x))
+    return out
+
+
+class _SwapIndependent(ast.NodeTransformer):
+    """swap adjacent call-free assignments whose read/write sets are disjoint (dependence-preserving reordering)"""
+
+    def _simple(self, st):
+        return isinstance(st, (ast.Assign, ast.AugAssign)) and not any(isinstance(x, (ast.Call, ast.Subscript, ast.Yield, ast.Await)) for x in ast.walk(st))
+
+    def _writes(self, st):
+        ts = st.targets if isinstance(st, ast.Assign) else [st.target]
+        return set(ast.unparse(t) for t in ts)
+
+    def _conflict(self, a, b):
+        wa, wb = self._writes(a), self._writes(b)
+        ra, rb = _names(a), _names(b)
+        def touches(ws, names):
+            return any(w == n or n.startswith(w + ".") or w.startswith(n + ".") for w in ws for n in names)
+        return touches(wa, rb) or touches(wb, ra) or bool(wa & wb)
+
+    def _process(self, body):
+        i = 0
+        while i + 1 < len(body):
+            a, b = body[i], body[i + 1]
+            if self._simple(a) and self._simple(b) and not self._conflict(a, b):
+                body[i], body[i + 1] = b, a
+                i += 2
+            else:
+                i += 1
+        return body
+
+    def generic_visit(self, node):
+        super().generic_visit(node)
+        for f in ("body", "orelse", "finalbody"):
+            v = getattr(node, f, None)
+            if isinstance(v, list) and v and isinstance(v[0], ast.stmt):
+                setattr(node, f, self._process(v))
+        return node
+
+
+class _ExtractTail(ast.NodeTransformer):
+    """extract the last statement of a method into a new private method when it only uses self and the method's parameters"""
+
+    def visit_ClassDef(self, cls):
+        new_methods = []
+        for fn in [x for x in cls.body if isinstance(x, ast.FunctionDef)]:
+            if fn.name.startswith("__") or len(fn.body) < 3 or fn.decorator_list:
+                continue
+            if any(isinstance(x, (ast.Yield, ast.YieldFrom)) for x in ast.walk(fn)):
+                continue
+            tail = fn.body[-1]
+            if not isinstance(tail, (ast.Expr, ast.If)) or any(isinstance(x, (ast.Return, ast.Break, ast.Continue, ast.Yield)) for x in ast.walk(tail)):
+                continue
+            params = [a.arg for a in fn.args.args]
+            if not params or params[0] != "self" or fn.args.vararg or fn.args.kwarg:
+                continue
+            used = {x.id for x in ast.walk(tail) if isinstance(x, ast.Name)}
+            stored = {x.id for x in ast.walk(tail) if isinstance(x, ast.Name) and isinstance(x.ctx, ast.Store)}
+            local_names = {x.id for x in ast.walk(fn) if isinstance(x, ast.Name) and isinstance(x.ctx, ast.Store)}
+            if stored or (used & local_names) - set(params):
+                continue
+            hname = "_tail_of_" + fn.name
+            helper = ast.FunctionDef(name=hname, args=ast.arguments(posonlyargs=[], args=[ast.arg(arg=p) for p in params], kwonlyargs=[], kw_defaults=[], defaults=[]),
+                                     body=[tail], decorator_list=[], returns=None, type_comment=None, type_params=[])
+            call = ast.Expr(value=ast.Call(func=ast.Attribute(value=ast.Name(id="self", ctx=ast.Load()), attr=hname, ctx=ast.Load()),
+                                            args=[ast.Name(id=p, ctx=ast.Load()) for p in params[1:]], keywords=[]))
+            fn.body[-1] = call
+            new_methods.append(helper)
+        cls.body += new_methods
+        return cls
+
+
 OPERATORS = {
     "flip-comparisons": _FlipCompare,
     "negate-comparisons": _NegateCompare,
@@ -118,6 +197,8 @@ OPERATORS = {
     "insert-pass": _InsertPass,
     "aug-to-assign": _AugToAssign,
     "rename-locals": _RenameLocals,
+    "swap-independent": _SwapIndependent,
+    "extract-tail-helper": _ExtractTail,
 }
 
 
